@@ -5,7 +5,7 @@ from simkit import plan as P, tlv, universe as U, world as W
 
 CODEC_CHOICES = ['ber', 'ber', 'ber', 'ber-indef', 'ber-indef', 'ber-indef', 'ber-chunk:1', 'ber-chunk:2', 'ber-chunk:3',
                  'ber-chunk:7', 'ber-chunk:150', 'ber-chunk:1000', 'ber-indef-chunk:3', 'ber-indef-chunk:150',
-                 'ber-indef-chunk:1000', 'cer', 'cer', 'cer', 'der', 'der', 'der']
+                 'ber-indef-chunk:1000', 'cer', 'cer', 'cer', 'der', 'der', 'der', 'ber-indef-int', 'ber-def-int']
 
 
 def decoder_for(codec):
@@ -13,7 +13,7 @@ def decoder_for(codec):
 
 
 def gen_stream_workload(r, max_values=4, small=False, force_codec=None, allow_f2=None,
-                        constraints=False, constructed_default=False, variants=True, scale=True):
+                        constraints=False, constructed_default=False, variants=True, scale=True, rawdump=False):
     codec = force_codec or r.choice(CODEC_CHOICES)
     cfg = U.GenCfg()
     cfg.max_depth = r.choice([1, 2, 3, 3]) if not small else r.choice([1, 2])
@@ -69,6 +69,10 @@ def gen_stream_workload(r, max_values=4, small=False, force_codec=None, allow_f2
                 values[i] = U.gen_value(r, desc, vc)
     w = {'desc': desc, 'values': values, 'codec': codec, 'decoder': decoder_for(codec),
          'use_spec': use_spec, 'open_types': U.has_open(desc)}
+    if rawdump and decoder_for(codec) == 'ber' and not U.has_open(desc) and r.random() < 0.06:
+        # the customised decoder that dumps unrecognised items raw, without a guiding type (any tags will do)
+        w['decoder'] = 'ber-rawdump'
+        w['use_spec'] = False
     if r.random() < 0.25:
         w['style'] = 'class'        # types declared as user subclasses with class-level attributes
     if variants and decoder_for(codec) == 'ber' and r.random() < 0.25:
